@@ -21,12 +21,24 @@ S = z3.StringSort
 DELIM = z3.StringVal('~~~')
 N_FIELDS = {'_Protocol__buffer': Bytes, '_Protocol__nid': Int, '_Protocol__events': Dict(Int, Ref), '_Protocol__server': Ref,
             '_Protocol__sock': Ref, '_Protocol__receive_event_firewall': Ref, '_Protocol__send_event_firewall': Ref,
-            'success': Bool, 'success_channels': Any, 'node_call_id': Any, 'node_sock': Ref, 'node_without_result': Dyn(Bool),
+            'success': Bool, 'failure': Bool, 'complete': Bool, 'success_channels': Any, 'node_call_id': Any, 'node_sock': Ref, 'node_without_result': Dyn(Bool),
             'remote_finish': Dyn(Bool), 'value': Ref}
 
 
 def log(I, n):
     return I.st.ghost.setdefault(n, [])
+
+
+# what load_event / load_value may raise for a hostile packet (verified on their bodies for every JSON value)
+DECLARED_RAISES = ('TypeError', 'ValueError', 'KeyError', 'AttributeError', 'RecursionError')
+
+
+def escape_post(I, v):
+    """An exception leaving the read handler is absorbed by the dispatcher (contract C04/handler_exception_is_absorbed) iff it is
+    an Exception subclass; KeyboardInterrupt / SystemExit / GeneratorExit would stop the loop."""
+    cover(I, 'raise')
+    I.oblige('only_ordinary_exceptions_escape', z3.BoolVal(I.exc_isa(v.cls, 'Exception')),
+             detail='escaping %s: not absorbed by the dispatcher, a peer could stop the loop' % v.cls)
 
 
 # ----------------------------------------------------------------------------- add_buffer
@@ -38,12 +50,14 @@ def ab_setup(I):
 
 
 def s_process_packet(I, recv, args, kw):
-    """contract of Protocol.__process_packet (verified below): handles the packet, or raises ValueError (undecodable bytes)"""
+    """contract of Protocol.__process_packet (verified below): handles the packet, raises a ValueError (undecodable bytes), or lets
+    an AttributeError / TypeError / RecursionError caused by a hostile packet escape"""
     (p,) = args
     log(I, 'PROCESSED').append(p.t)
     cover(I, 'processed')
-    if I.st.choice(2, 'packet_ok') == 1:
-        lib.raise_(I, 'UnicodeDecodeError', VStr('invalid utf-8'))
+    c = I.st.choice(5, 'packet_outcome')
+    if c:
+        lib.raise_(I, ('UnicodeDecodeError', 'AttributeError', 'TypeError', 'RecursionError')[c - 1], VStr('hostile packet'))
     return NONE
 
 
@@ -67,8 +81,7 @@ def ab_iter(I):
 def ab_post(I, outcome, ctx):
     kind, v = outcome
     if kind == 'raise':
-        cover(I, 'raise')
-        I.oblige('no_exception_for_any_bytes', z3.BoolVal(False), detail='escaping %s' % v.cls)
+        escape_post(I, v)
         return
     cover(I, 'return')
 
@@ -106,7 +119,7 @@ SPECS.append(FucSpec(
     calls={'self.__process_packet': s_process_packet}, env={'DELIMITER': VStr(b'~~~')},
     loops={0: LoopSpec(inv=[('true', lambda I: z3.BoolVal(True))], havoc_fields=['_Protocol__buffer'], entry_hook=ab_entry, iter_hook=ab_iter)},
     cover=['return', 'processed'], replay=ab_replay,
-    clause='add_buffer: no exception for any bytes; packets are the delimiter-terminated pieces of stash + data; the unterminated '
+    clause='add_buffer: only ordinary exceptions (absorbed by the dispatcher) escape for any bytes; packets are the delimiter-terminated pieces of stash + data; the unterminated '
            'tail must be kept for the next read, not parsed'))
 
 
@@ -120,9 +133,10 @@ def pp_setup(I):
 def pp_post(I, outcome, ctx):
     kind, v = outcome
     if kind == 'raise':
-        cover(I, 'raise')
-        I.oblige('raises_only_ValueError_family', z3.BoolVal(I.exc_isa(v.cls, 'ValueError')),
-                 detail='escaping %s: add_buffer only absorbs ValueError' % v.cls)
+        escape_post(I, v)
+        if not log(I, 'SUB'):
+            I.oblige('undecodable_bytes_raise_only_ValueError_family', z3.BoolVal(I.exc_isa(v.cls, 'ValueError')),
+                     detail='raised before the packet was interpreted: %s' % v.cls)
         return
     cover(I, 'return')
     calls = log(I, 'SUB')
@@ -131,7 +145,12 @@ def pp_post(I, outcome, ctx):
 
 def sub(name):
     def f(I, recv, args, kw):
+        """contract of __process_packet_call / __process_packet_value (verified below): returns, or lets AttributeError,
+        TypeError or RecursionError escape"""
         log(I, 'SUB').append(name)
+        c = I.st.choice(4, 'sub_outcome')
+        if c:
+            lib.raise_(I, ('AttributeError', 'TypeError', 'RecursionError')[c - 1])
         return NONE
     return f
 
@@ -151,14 +170,10 @@ def pc_setup(I):
 
 
 def s_load_event(I, recv, args, kw):
-    """contract of load_event: an Event and an id, or TypeError / ValueError / LookupError for malformed input"""
-    c = I.st.choice(4, 'load_event')
-    if c == 1:
-        lib.raise_(I, 'TypeError')
-    if c == 2:
-        lib.raise_(I, 'ValueError')
-    if c == 3:
-        lib.raise_(I, 'KeyError')
+    """contract of load_event (verified below against every JSON value): an Event and an id, or one of DECLARED_RAISES"""
+    c = I.st.choice(len(DECLARED_RAISES) + 1, 'load_event')
+    if c:
+        lib.raise_(I, DECLARED_RAISES[c - 1])
     e = I.st.fresh_ref('Event')
     I.st.ghost['LOADED'] = e
     I.st.uses_any = True
@@ -175,7 +190,8 @@ def s_firewall(I, recv, args, kw):
 def pc_post(I, outcome, ctx):
     kind, v = outcome
     if kind == 'raise':
-        I.oblige('no_escape', z3.BoolVal(False), detail='escaping %s' % v.cls)
+        escape_post(I, v)
+        I.oblige('nothing_dispatched_for_a_packet_that_raised', z3.BoolVal(not log(I, 'FIRED') and not log(I, 'RESULTS')))
         return
     cover(I, 'return')
     self = ctx['args']['self']
@@ -199,6 +215,16 @@ def pc_post(I, outcome, ctx):
         cover(I, 'dispatched')
         I.st.uses_any = True
         I.oblige('result_routing_prepared', z3.And(fired[0].t == e.t, I.fz(e, 'success'), I.field(e, 'node_sock').t == I.field(self, '_Protocol__sock').t))
+        I.oblige('error_outcome_feedback_requested', z3.Or(I.fz(e, 'failure'), I.fz(e, 'complete')),
+                 detail='"its result or error flag comes back": <name>_success is only produced when no handler raised (C04), so a feedback '
+                        'that is produced when a handler raised (failure or complete) must be requested for the dispatched event as well; '
+                        'here it is whatever the peer put into the packet')
+
+
+def pc_replay(model, ob):
+    if 'error_outcome_feedback_requested' in ob['name']:
+        return open(os.path.join(os.path.dirname(os.path.dirname(os.path.abspath(__file__))), 'replay', 'C19_remote_error.py')).read()
+    return None
 
 
 def s_fire(I, recv, args, kw):
@@ -210,7 +236,7 @@ SPECS.append(FucSpec(
     'C19', FILE, 'Protocol.__process_packet_call', pc_setup, pc_post, fields=N_FIELDS,
     calls={'load_event': s_load_event, 'self.__receive_event_firewall': s_firewall, 'self.fire': s_fire,
            'self.send_result': lambda I, r, a, k: (log(I, 'RESULTS').append(a), NONE)[1], 'Value': lambda I, r, a, k: I.st.fresh_ref('Value')},
-    attr_hooks={'event.channels': lambda I: VTuple([])}, cover=['return', 'malformed', 'dispatched'],
+    attr_hooks={'event.channels': lambda I: VTuple([])}, cover=['return', 'malformed', 'dispatched'], replay=lambda model, ob: pc_replay(model, ob),
     clause='__process_packet_call: malformed packets are ignored; an event refused by the receive firewall is never fired; an '
            'accepted one is fired exactly once with the success routing to node_result prepared'))
 
@@ -268,6 +294,256 @@ SPECS.append(FucSpec(
     cover=['return', 'sent'],
     clause='send (up to and including the wait for the remote result): an event refused by the send firewall is never transmitted; '
            'an accepted one is serialised with a fresh call id and transmitted exactly once'))
+
+
+# ----------------------------------------------------------------------------- load_event / load_value on an arbitrary JSON value
+from contracts import jsonmodel as J      # noqa: E402
+UTILS = 'circuits/node/utils.py'
+ONLY_INTERNAL = {'reduce_time_left'}      # read only on generate_events instances (isinstance guard); see meta_structural
+_CACHE = {}
+
+
+def real_meta_exclude():
+    """META_EXCLUDE as the real module computes it at import time (set(dir(Event())) plus the explicit additions)"""
+    if 'excl' not in _CACHE:
+        p = subprocess.run(['/venv/bin/python', '-c', 'import json; from circuits.node.utils import META_EXCLUDE; print(json.dumps(sorted(META_EXCLUDE)))'],
+                           capture_output=True, text=True, env=dict(os.environ, PYTHONPATH='/repo'), timeout=60)
+        _CACHE['excl'] = set(json.loads(p.stdout))
+    return _CACHE['excl']
+
+
+def dispatcher_reads():
+    if 'reads' not in _CACHE:
+        _CACHE['reads'] = {a for a in event_attribute_reads() if not a.startswith('__') and a not in ONLY_INTERNAL}
+    return _CACHE['reads']
+
+
+def protected(k):
+    """the attribute name k (a z3 string) is one the dispatcher relies on, or a dunder"""
+    return z3.Or(z3.PrefixOf(z3.StringVal('__'), k), J.StrSet(dispatcher_reads()).member(k))
+
+
+class JEvent(VModel):
+    """the object built by Event.create(...) inside load_event: attributes recorded per path"""
+
+    def __init__(self, name, args, kwargs):
+        self.attrs = {'name': name, 'args': args, 'kwargs': kwargs}
+
+    def getattr(self, I, name):
+        if name in self.attrs:
+            return self.attrs[name]
+        raise Unsupported('read of event.%s in load_event' % name)
+
+    def setattr(self, I, name, v):
+        self.attrs[name] = v
+
+
+def s_event_create(I, recv, args, kw):
+    """Event.create(_name, *args, **kwargs) = type(cls)(_name, (cls,), {})(*args, **kwargs)"""
+    J.trusted(I)
+    name = args[0]
+    if not isinstance(name, J.JsonV):
+        raise Unsupported('Event.create(%r)' % (name,))
+    if not I.branch(name.is_(J.STR), 'json_is_str'):
+        lib.raise_(I, 'TypeError', VStr('type() argument 1 must be str'))
+    c = I.st.choice(3, 'event_create')
+    if c == 1:
+        lib.raise_(I, 'ValueError', VStr('type name must not contain null characters'))
+    if c == 2:
+        lib.raise_(I, 'TypeError', VStr("got multiple values for argument '_name'"))
+    star = args[1] if len(args) > 1 else None
+    return JEvent(name, star, kw.get('**'))
+
+
+def s_setattr(I, recv, args, kw):
+    obj, k, v = args
+    ks = J.key_str(I, k)
+    log(I, 'SETATTR').append((obj, ks, v))
+    I.oblige('peer_metadata_cannot_set_an_attribute_the_dispatcher_relies_on', z3.Not(protected(ks)),
+             detail='setattr(event, k, v) with a peer-chosen k: k must not be a dunder nor one of %s' % sorted(dispatcher_reads()))
+    return NONE
+
+
+def json_env():
+    return {'META_EXCLUDE': J.StrSet(real_meta_exclude())}
+
+
+JSON_CALLS = {'json.loads': J.s_json_loads, 'bool': J.s_bool, 'tuple': J.s_tuple, 'hash': J.s_hash, 'dict': J.s_dict,
+              'Event.create': s_event_create, 'setattr': s_setattr}
+def le_setup(I):
+    return {'s': sym(I, 's', Str)}
+
+
+def raises_post(I, v):
+    cover(I, 'raise')
+    I.oblige('raises_only_ordinary_exceptions', z3.BoolVal(I.exc_isa(v.cls, 'Exception')),
+             detail='%s: only Exception subclasses are absorbed by the dispatcher when they leave the read handler' % v.cls)
+    I.oblige('raises_only_the_classes_its_callers_are_told_about', z3.BoolVal(v.cls in DECLARED_RAISES), detail=v.cls)
+
+
+def le_post(I, outcome, ctx):
+    kind, v = outcome
+    if kind == 'raise':
+        return raises_post(I, v)
+    cover(I, 'return')
+    root = I.st.ghost['JSON_ROOT']
+    fld = lambda k: J.jget(root.t, z3.StringVal(k))      # noqa: E731
+    v = lib.unopt(I, v)
+    ok_shape = isinstance(v, VTuple) and len(v.items) == 2 and isinstance(v.items[0], JEvent)
+    I.oblige('returns_event_and_id', z3.BoolVal(ok_shape))
+    if not ok_shape:
+        return
+    e, ident = v.items
+    a = e.attrs
+    I.oblige('id_from_packet', ident.t == fld('id') if isinstance(ident, J.JsonV) else z3.BoolVal(False))
+    I.oblige('name_from_packet', z3.And(a['name'].t == fld('name'), a['name'].is_(J.STR)))
+    I.oblige('args_from_packet', z3.BoolVal(isinstance(a['args'], J.JStar)) if not isinstance(a['args'], J.JStar) else a['args'].j.t == fld('args'))
+    I.oblige('kwargs_from_packet', a['kwargs'].t == fld('kwargs') if isinstance(a['kwargs'], J.JsonV) else z3.BoolVal(False))
+    for f in ('success', 'failure', 'notify'):
+        x = a.get(f)
+        I.oblige('flag_%s_is_a_bool_from_packet' % f, x.t == J.jtruthy(fld(f)) if isinstance(x, VBool) else z3.BoolVal(False),
+                 detail='the feedback flag is bool(packet[%r]) and nothing else' % f)
+    ch = a.get('channels')
+    I.oblige('channels_is_the_tuple_of_the_packet_channels', ch.src.t == fld('channels') if isinstance(ch, J.JTuple) else z3.BoolVal(False))
+    hashed = isinstance(ch, J.JTuple) and any(h is ch or z3.eq(h.t, ch.t) for h in I.st.ghost.get('HASHED', []))
+    I.oblige('channels_are_hashable', z3.BoolVal(hashed),
+             detail='the dispatcher uses event.channels as a dictionary key outside any handler: an unhashable element stops the loop')
+    extra = sorted(set(a) - {'name', 'args', 'kwargs', 'success', 'failure', 'notify', 'channels'})
+    I.oblige('no_other_fixed_attribute_is_taken_from_the_packet', z3.BoolVal(not [x for x in extra if x in dispatcher_reads() or x.startswith('__')]),
+             detail='also set: %r' % extra)
+
+
+def le_replay(model, ob):
+    if 'channels_are_hashable' in ob['name']:
+        pk = '{"id": 1, "name": "hello", "args": [], "kwargs": {}, "success": 0, "failure": 0, "notify": 0, "channels": [["x"]], "meta": {}}'
+        what = 'a packet whose channels contain a list'
+    elif 'peer_metadata' in ob['name']:
+        pk = '{"id": 1, "name": "hello", "args": [], "kwargs": {}, "success": 0, "failure": 0, "notify": 0, "channels": [], "meta": {"cause": 1, "__dict__": {}}}'
+        what = 'a packet whose metadata names dispatcher attributes'
+    else:
+        return None
+    return """
+import sys
+from circuits import Component, Event
+from circuits.node.protocol import Protocol
+class App(Component):
+    def hello(self): return 1
+app = App(); p = Protocol().register(app)
+for _ in range(3): app.tick()
+bad = None
+try:
+    p.add_buffer(%r.encode() + b'~~~')
+    for _ in range(6): app.tick()
+except BaseException as e:
+    bad = 'the event loop raised %%r' %% (e,)
+print(%r, '->', bad or 'loop survived')
+sys.exit(1 if bad else 0)
+""" % (pk, what)
+
+
+SPECS.append(FucSpec(
+    'C19', UTILS, 'load_event', le_setup, le_post, calls=JSON_CALLS, env=json_env(),
+    loops={0: LoopSpec(inv=[('true', lambda I: z3.BoolVal(True))])}, cover=['return', 'raise'], replay=le_replay,
+    clause='load_event, for EVERY value json.loads can return: name/args/kwargs/id and the three feedback flags come from the packet '
+           'fields (flags as bools), channels is a hashable tuple, no peer-chosen metadata key is a dunder or an attribute the '
+           'dispatcher reads (set computed from the dispatcher ASTs on this run), and only ordinary exceptions are raised'))
+
+
+def lv_setup(I):
+    return {'v': sym(I, 'v', Str)}
+
+
+def lv_post(I, outcome, ctx):
+    kind, v = outcome
+    if kind == 'raise':
+        return raises_post(I, v)
+    cover(I, 'return')
+    root = I.st.ghost['JSON_ROOT']
+    fld = lambda k: J.jget(root.t, z3.StringVal(k))      # noqa: E731
+    v = lib.unopt(I, v)
+    ok_shape = isinstance(v, VTuple) and len(v.items) == 4 and all(isinstance(x, J.JsonV) for x in v.items[:3]) and isinstance(v.items[3], VItemsDict)
+    I.oblige('returns_value_id_errors_meta', z3.BoolVal(ok_shape))
+    if not ok_shape:
+        return
+    value, ident, errors, meta = v.items
+    I.oblige('value_id_errors_from_packet', z3.And(value.t == fld('value'), ident.t == fld('id'), errors.t == fld('errors')))
+    L = meta.items_list
+    p = core.fresh('p', z3.IntSort())
+    k = L.at(p).items[0]
+    I.oblige('every_metadata_key_returned_is_harmless', z3.Implies(z3.And(L.lo <= p, p < L.hi), z3.Not(protected(k.t))),
+             detail='no returned metadata key is a dunder or an attribute the dispatcher reads')
+
+
+SPECS.append(FucSpec(
+    'C19', UTILS, 'load_value', lv_setup, lv_post, calls=JSON_CALLS, env=json_env(), cover=['return', 'raise'],
+    clause='load_value, for EVERY value json.loads can return: value/id/errors come from the packet fields, every metadata key '
+           'it returns is neither a dunder nor an attribute the dispatcher reads, and only ordinary exceptions are raised'))
+
+
+# ----------------------------------------------------------------------------- __process_packet_value: a result comes back
+def pv_setup(I):
+    self = obj(I, 'self', 'Protocol')
+    packet = sym(I, 'packet', Str)
+    return {'self': self, 'packet': packet}
+
+
+def s_load_value(I, recv, args, kw):
+    """contract of load_value (verified above)"""
+    c = I.st.choice(len(DECLARED_RAISES) + 1, 'load_value')
+    if c:
+        lib.raise_(I, DECLARED_RAISES[c - 1])
+    vals = [J.JsonV(core.fresh(n, J.A())) for n in ('value', 'id', 'errors')]
+    n = core.fresh('n_meta', z3.IntSort())
+    I.assume(n >= 0)
+    ks, vs = core.fresh('meta_keys', z3.ArraySort(z3.IntSort(), S())), core.fresh('meta_vals', z3.ArraySort(z3.IntSort(), J.A()))
+    p = core.fresh('p', z3.IntSort())
+    I.assume(z3.ForAll([p], z3.Implies(z3.And(0 <= p, p < n), z3.Not(protected(z3.Select(ks, p))))), 'ensures of load_value: metadata keys are harmless')
+    I.st.ghost['LOADED_VALUE'] = vals
+    return VTuple(vals + [VItemsDict(VList(Tup(Str, J.Json), [ks, vs], z3.IntVal(0), n))])
+
+
+def s_events_get(I, recv, args, kw):
+    """self.__events.get(id) for a peer-chosen id: TypeError (unhashable id), None (no such call pending) or the pending event"""
+    c = I.st.choice(3, 'pending_lookup')
+    if c == 2:
+        lib.raise_(I, 'TypeError', VStr('unhashable type'))
+    if c == 0:
+        return NONE
+    ev = I.st.fresh_ref('Event')
+    I.st.ghost['PENDING'] = ev
+    return ev
+
+
+def pv_post(I, outcome, ctx):
+    kind, v = outcome
+    sets, results = log(I, 'SETATTR'), log(I, 'SETVALUE')
+    ev = I.st.ghost.get('PENDING')
+    if kind == 'raise':
+        cover(I, 'raise')
+        I.oblige('only_ordinary_exceptions_escape', z3.BoolVal(I.exc_isa(v.cls, 'Exception')), detail=v.cls)
+        return
+    cover(I, 'return')
+    if ev is None:
+        cover(I, 'ignored')
+        I.oblige('unmatched_or_malformed_value_packet_changes_nothing', z3.BoolVal(not sets and not results))
+        return
+    cover(I, 'delivered')
+    vals = I.st.ghost['LOADED_VALUE']
+    rf = I.st.read_field(ev.t, 'remote_finish')
+    I.oblige('waiting_sender_is_released', z3.And(rf.present, rf.val.t if hasattr(rf.val, 't') else rf.val))
+    I.oblige('result_stored_exactly_once', z3.BoolVal(len(results) == 1 and isinstance(results[0][0], J.JsonV) and z3.eq(results[0][0].t, vals[0].t)))
+    I.oblige('error_flag_stored', I.field(ev, 'errors').t == vals[2].t)
+
+
+SPECS.append(FucSpec(
+    'C19', FILE, 'Protocol.__process_packet_value', pv_setup, pv_post,
+    fields=dict(N_FIELDS, errors=Any), calls={'load_value': s_load_value, 'self.__events.get': s_events_get, 'setattr': s_setattr,
+                                             'Value': lambda I, r, a, k: I.st.fresh_ref('Value'),
+                                             '*.setValue': lambda I, r, a, k: (log(I, 'SETVALUE').append(a), NONE)[1]},
+    loops={0: LoopSpec(inv=[('true', lambda I: z3.BoolVal(True))])}, cover=['return', 'ignored', 'delivered'],
+    clause='__process_packet_value: a malformed value packet or one for no pending call changes nothing; otherwise the result and the '
+           'error flag are stored on the pending event and its waiting sender is released; the only other attributes written are '
+           'metadata keys that are neither dunders nor read by the dispatcher'))
 
 
 # ----------------------------------------------------------------------------- META_EXCLUDE: structural obligation
